@@ -314,16 +314,34 @@ class ExprMixin:
                 if t != is_and:
                     res = v
                 continue
-            if is_and:
-                res = ops.ite(t, res, v)
-            else:
-                try:
-                    res = ops.ite(t, v, res)
-                except (Unsupported, ContractMisfit):
-                    # `a or b` with a: Optional[X], b: X — where a is chosen it is truthy, hence not None
-                    if v.is_py or not isinstance(v.ty, T.Opt):
-                        raise
-                    res = ops.ite(t, Val(v.ty.inner, v.ty.sort().val(v.term)), res)
+            try:
+                if is_and:
+                    res = ops.ite(t, res, v)
+                else:
+                    try:
+                        res = ops.ite(t, v, res)
+                    except (Unsupported, ContractMisfit):
+                        # `a or b` with a: Optional[X], b: X — where a is chosen it is truthy, hence not None
+                        if v.is_py or not isinstance(v.ty, T.Opt):
+                            raise
+                        res = ops.ite(t, Val(v.ty.inner, v.ty.sort().val(v.term)), res)
+            except (Unsupported, ContractMisfit):
+                # operands of unrelated data types (`key and not key[0].isalpha()`: a str or a bool): the value is a Union
+                ta = v.ty if v.ty is not PYOBJ else ops.py_type_of(v.py) if is_const(v) else None
+                tb = res.ty if res.ty is not PYOBJ else ops.py_type_of(res.py) if is_const(res) else None
+                if ta is None or tb is None or ta is PYOBJ or tb is PYOBJ or isinstance(ta, T.Union) and isinstance(tb, T.Union):
+                    raise
+                want = getattr(self, "_assign_want", None)
+                if isinstance(want, T.Union):
+                    u = want
+                elif isinstance(tb, T.Union):
+                    u = tb if ta in tb.alts else T.Union(ta, *tb.alts)
+                elif isinstance(ta, T.Union):
+                    u = ta if tb in ta.alts else T.Union(*ta.alts, tb)
+                else:
+                    u = T.Union(ta, tb)
+                a_, b_ = coerce(v, u), coerce(res, u)
+                res = ops.ite(t, b_, a_) if is_and else ops.ite(t, a_, b_)
         return res
 
     def e_IfExp(self, node, st):
